@@ -124,7 +124,7 @@ impl Prop for C15 {
     type Case = Case;
     const ID: &'static str = "C15";
     const NUM: u64 = 15;
-    const RULE: &'static str = "generator in {random_tournament, random_recursive_tree, erdos_renyi} x representation in {AdjacencyList, AdjacencyMap, AdjacencyMatrix, EdgeList} x order 1..64 (quick) / 1..130 (thorough) x seed in {0, 1, u64::MAX, uniform} x p in {0, 1, 0.5, next above 0.5, uniform [0,1], invalid: -0.1, 1.1, tiny negative, NaN, +-inf} x CPU count 1..=16 (sched_setaffinity; the AdjacencyMap generators are threaded); every case also draws 256 next_f64 values from Xoshiro256StarStar::new(seed). Each valid call is made three times (one from a fresh thread) and compared. Non-trivial = order greater than the CPU count and, for erdos_renyi, 0 < p < 1; distinct = distinct serialised case.";
+    const RULE: &'static str = "generator in {random_tournament, random_recursive_tree, erdos_renyi} x representation in {AdjacencyList, AdjacencyMap, AdjacencyMatrix, EdgeList} x order 1..64 (quick) / 1..130 (thorough) x seed in {0, 1, u64::MAX, uniform} x p in {0, -0.0, 1, 0.5, next above 0.5, uniform [0,1], invalid: -0.1, 1.1, tiny negative, NaN, +-inf} x CPU count 1..=16 (sched_setaffinity; the AdjacencyMap generators are threaded); every case also draws 256 next_f64 values from Xoshiro256StarStar::new(seed). Each valid call is made three times (one from a fresh thread) and compared. Non-trivial = order greater than the CPU count and, for erdos_renyi, 0 < p < 1; distinct = distinct serialised case.";
     const ASSUMPTIONS: &'static [&'static str] = &[
         "the concrete digraph for a seed, equality across representations and across thread counts are not asserted (the property allows them to differ)",
     ];
@@ -181,6 +181,7 @@ impl Prop for C15 {
             prop_oneof![1 => Just(0_u64), 1 => Just(1_u64), 1 => Just(u64::MAX), 7 => any::<u64>()],
             prop_oneof![
                 2 => Just((0_u8, 0.0_f64)),
+                1 => Just((0_u8, -0.0_f64)),
                 2 => Just((0, 1.0)),
                 1 => Just((0, 0.5)),
                 1 => Just((0, 0.500_000_000_000_000_1)),
